@@ -235,9 +235,12 @@ static bool gen_parallel_merge(Rng &r, const std::vector<std::string> &vocab, co
     return true;
 }
 
+static bool g_converge = false;
+void set_convergence_bias(bool on) { g_converge = on; }
+
 static Json gen_fsg_pref(Rng &r, const std::vector<std::string> &vocab, const std::vector<std::string> &prefer)
 {
-    if (r.chance(0.2)) {
+    if (r.chance(g_converge ? 0.45 : 0.2)) {
         Json pm;
         if (gen_parallel_merge(r, vocab, prefer, pm))
             return pm;
@@ -297,7 +300,7 @@ static Json gen_fsg_pref(Rng &r, const std::vector<std::string> &vocab, const st
             }
         }
     }
-    if (N >= 3 && r.chance(0.45)) { // two arcs from DIFFERENT states into the same state, labelled with rhyming words
+    if (N >= 3 && r.chance(g_converge ? 0.7 : 0.45)) { // two arcs from DIFFERENT states into the same state, labelled with rhyming words
         std::string w1, w2;
         if (rhyme_pair(r, prefer, w1, w2)) {
             int t = (int)r.below((uint64_t)N), f1 = (int)r.below((uint64_t)N), f2 = (int)r.below((uint64_t)N);
@@ -717,7 +720,7 @@ Json fixed(const std::string &name)
 
 Json gen_any(Rng &r, const std::vector<std::string> &vocab, const std::vector<std::string> &prefer)
 {
-    switch (r.weighted({ 35, 30, 20, 8, 7 })) {
+    switch (r.weighted({ g_converge ? 60 : 35, 30, 20, 8, 7 })) {
     case 0: return gen_fsg_pref(r, vocab, prefer);
     case 1: return gen_jsgf_pref(r, vocab, prefer);
     case 2: return gen_align(r, vocab, prefer);
